@@ -398,6 +398,10 @@ fn main() {
                     if let Some((w, _, _, d)) = witgen::generate_valid(&mut wrng, &cfg) {
                         discarded += d;
                         // resource histories need a resource with some way to get hold of one
+                        // a world without any function gives nothing to call
+                        if !w.wit.contains("func(") {
+                            continue;
+                        }
                         if mode == "resources" && !(w.tags.contains("resource") && (w.wit.contains("constructor(") || w.tags.contains("own"))) {
                             continue;
                         }
